@@ -347,24 +347,48 @@ class Compiler:
         addr = link_base["promise"]
         generated_code = b""
 
-        for file_ast in files_ast:
-            data = self.compile_file(file_ast, addr, link_base)
-            generated_code += data
-            if isinstance(data, BaseDeferred):
-                addr += data.length()
-            else:
-                addr += len(data)
+        try:
+            for file_ast in files_ast:
+                data = self.compile_file(file_ast, addr, link_base)
+                generated_code += data
+                if isinstance(data, BaseDeferred):
+                    addr += data.length()
+                else:
+                    addr += len(data)
 
-        if not link_base["promise"].settled:
-            link_base["promise"].settle(0o1000)
+            if not link_base["promise"].settled:
+                link_base["promise"].settle(0o1000)
 
-        base, code = wait(link_base["promise"]), wait(generated_code)
+            base, code = wait(link_base["promise"]), wait(generated_code)
 
-        # Resolve all symbols, in case some have not been used
-        for _, (_, value) in self.symbols.items():
-            wait(value)
+            # Resolve all symbols, in case some have not been used
+            for _, (_, value) in self.symbols.items():
+                wait(value)
+        except DeferredCycle as ex:
+            self.report_cycle(ex, files_ast)
+            raise reports.RecoverableError("Recursive definition")
 
         return base, code
+
+
+    def report_cycle(self, ex, files_ast):
+        # The symbols whose values were being computed when the cycle closed
+        involved = []
+        for deferred in (ex.args[0] if ex.args else []):
+            for _, (token, value) in self.symbols.items():
+                if value is deferred and token not in involved:
+                    involved.append(token)
+        if involved:
+            reports.error(
+                "recursive-definition",
+                (involved[0].ctx_start, involved[0].ctx_end, "The value of this symbol depends on itself, and thus cannot be determined."),
+                *[(token.ctx_start, token.ctx_end, "...through the value of this symbol") for token in involved[1:]]
+            )
+        else:
+            reports.error(
+                "recursive-definition",
+                (files_ast[0].body.ctx_start, files_ast[0].body.ctx_end, "The size or the contents of some statement depends on itself, and thus cannot be determined.")
+            )
 
 
     def emit_files(self, base, code):
